@@ -7,7 +7,7 @@ import engine
 
 def gen(rep, suite, module, cfgs, replay_cmd, clauses, hashseeds=(0,), driver="drv_rel.py", finding=None):
     sc = engine.scratch()
-    mon = {"truth": [], "rule": []}
+    mon = {"truth": [], "rule": [], "writeback": []}
     for label, cfg in cfgs:
         r = engine.run_tlc(module, cfg, timeout=1800)
         rep.add_mc(r, f"{module} {label}")
@@ -32,6 +32,7 @@ def gen(rep, suite, module, cfgs, replay_cmd, clauses, hashseeds=(0,), driver="d
                              finding=finding(f) if finding else None)
             mon["truth"] += out.get("truth", [])
             mon["rule"] += out.get("rule", [])
+            mon["writeback"] += out.get("writeback", [])
     return mon
 
 
@@ -43,7 +44,7 @@ def trace(rep, suite, module, cfg, record_cmd, record_args, spec_keys, clauses, 
     raw = os.path.join(sc, f"{suite}_trace_raw.ndjson")
     engine.run_driver(driver, [record_cmd] + [str(a) for a in record_args] + [raw], hashseed=hashseed)
     evs = engine.read_ndjson(raw)
-    mon = evs.pop() if evs and evs[-1].get("op") == "_monitor" else {"truth": [], "rule": []}
+    mon = evs.pop() if evs and evs[-1].get("op") == "_monitor" else {"truth": [], "rule": [], "writeback": []}
     use = []
     for e in evs:
         if e.get("skipped"):
